@@ -209,6 +209,26 @@ m("C06-full-set-metadata-appends", FMT, "        self.metadata = metadata.to_vec
 
 m("C01-proving-touches-tree", PROTO, "    let merkle_proof = tree.proof(id_index)?;\n    let path_elements", "    let merkle_proof = tree.proof(id_index)?;\n    if id_index + 1 == tree.leaves_set() {\n        let _ = tree.set_metadata(&serialized[0..8]);\n    }\n    let path_elements", "C01")
 
+# ---- behaviour-preserving refactors: every check must stay silent on these
+m("C10-benign-proof-values-loop", PROTO, "    serialized.extend_from_slice(&fr_to_bytes_le(&rln_proof_values.root));\n    serialized.extend_from_slice(&fr_to_bytes_le(&rln_proof_values.external_nullifier));\n    serialized.extend_from_slice(&fr_to_bytes_le(&rln_proof_values.x));\n    serialized.extend_from_slice(&fr_to_bytes_le(&rln_proof_values.y));\n    serialized.extend_from_slice(&fr_to_bytes_le(&rln_proof_values.nullifier));\n\n    serialized\n}", "    let root = fr_to_bytes_le(&rln_proof_values.root);\n    serialized.extend_from_slice(&root);\n    let en = fr_to_bytes_le(&rln_proof_values.external_nullifier);\n    serialized.extend_from_slice(&en);\n    serialized.extend_from_slice(&fr_to_bytes_le(&rln_proof_values.x));\n    serialized.extend_from_slice(&fr_to_bytes_le(&rln_proof_values.y));\n    serialized.extend_from_slice(&fr_to_bytes_le(&rln_proof_values.nullifier));\n\n    serialized\n}", "C10")
+m("C02-benign-roots-any", PUB, "            roots.contains(&proof_values.root)", "            roots.iter().any(|r| *r == proof_values.root)", "C02")
+m("C03-benign-commuted-product", PROTO, "    let a_0 = y1 - x1 * a_1;", "    let a_0 = y1 - a_1 * x1;", "C03")
+m("C04-benign-commuted-sum", PROTO, "    let y = a_0 + rln_witness.x * a_1;", "    let y = rln_witness.x * a_1 + a_0;", "C04")
+m("C13-benign-len-guard-constant", PUB, "        if input_byte.len() < 128 + 5 * fr_byte_size() {\n            return Err(Report::msg(\"input data is too short\"));", "        if input_byte.len() < 288 {\n            return Err(Report::msg(\"input data is too short\"));", "C13")
+m("C12-benign-range-check-negated-lt", PROTO, "    if message_id >= user_message_limit {\n        return Err(color_eyre::Report::msg(\n            \"message_id is not within user_message_limit\",", "    if !(message_id < user_message_limit) {\n        return Err(color_eyre::Report::msg(\n            \"message_id is not within user_message_limit\",", "C12")
+m("C15-benign-opt-set-flag-before-mark", OMT, "        self.next_index = max(self.next_index, index + 1);\n        self.cached_leaves_indices[index] = 1;\n        Ok(())", "        self.cached_leaves_indices[index] = 1;\n        self.next_index = max(self.next_index, index + 1);\n        Ok(())", "C15")
+m("C06-benign-opt-set-flag-before-mark", OMT, "        self.next_index = max(self.next_index, index + 1);\n        self.cached_leaves_indices[index] = 1;\n        Ok(())", "        self.cached_leaves_indices[index] = 1;\n        self.next_index = max(self.next_index, index + 1);\n        Ok(())", "C06")
+m("C16-benign-close-map", SLED, "        let _ = self.0.flush().map_err(|_| {\n            PmtreeErrorKind::DatabaseError(DatabaseErrorKind::CustomError(\n                \"Cannot flush database\".to_string(),\n            ))\n        })?;\n        Ok(())", "        self.0.flush().map(|_| ()).map_err(|_| {\n            PmtreeErrorKind::DatabaseError(DatabaseErrorKind::CustomError(\n                \"Cannot flush database\".to_string(),\n            ))\n        })", "C16")
+m("C19-benign-bor-not-lt", GR, "    let mut d: BigInt<4> = BigInt::new(c);\n    if d >= Fr::MODULUS {\n        d.sub_with_borrow(&Fr::MODULUS);\n    }\n\n    Fr::from_bigint(d).unwrap()\n}\n\nfn bit_xor", "    let mut d: BigInt<4> = BigInt::new(c);\n    if !(d < Fr::MODULUS) {\n        d.sub_with_borrow(&Fr::MODULUS);\n    }\n\n    Fr::from_bigint(d).unwrap()\n}\n\nfn bit_xor", "C19")
+m("C07-benign-opt-leaf-index-rev-fold", OMT, "        let mut binary_repr = self.get_path_index();\n        binary_repr.reverse();\n        binary_repr\n            .into_iter()\n            .fold(0, |acc, digit| (acc << 1) + usize::from(digit))", "        self.get_path_index()\n            .into_iter()\n            .rev()\n            .fold(0usize, |acc, digit| (acc << 1) + usize::from(digit))", "C07")
+m("C01-benign-witness-local", PUB, "        let (rln_witness, _) = proof_inputs_to_rln_witness(&mut self.tree, &witness_byte)?;\n        let proof_values = proof_values_from_witness(&rln_witness)?;\n\n        let proof = generate_proof(&self.proving_key, &rln_witness, &self.graph_data)?;", "        let (rln_witness, _) = proof_inputs_to_rln_witness(&mut self.tree, &witness_byte)?;\n        let witness = &rln_witness;\n        let proof = generate_proof(&self.proving_key, witness, &self.graph_data)?;\n        let proof_values = proof_values_from_witness(witness)?;", "C01")
+m("C05-benign-populate-index-loop", CALC, "        for (i, v) in value.iter().enumerate() {\n            input_buffer[offset + i] = *v;\n        }", "        for i in 0..value.len() {\n            input_buffer[offset + i] = value[i];\n        }", "C05")
+m("C20-benign-populate-index-loop", CALC, "        for (i, v) in value.iter().enumerate() {\n            input_buffer[offset + i] = *v;\n        }", "        for i in 0..value.len() {\n            input_buffer[offset + i] = value[i];\n        }", "C20")
+m("C12-benign-populate-index-loop", CALC, "        for (i, v) in value.iter().enumerate() {\n            input_buffer[offset + i] = *v;\n        }", "        for i in 0..value.len() {\n            input_buffer[offset + i] = value[i];\n        }", "C12")
+m("C09-benign-hash-to-field-tuple", HASH, "    let (el, _) = bytes_le_to_fr(hash.as_ref());\n    el\n}", "    bytes_le_to_fr(hash.as_ref()).0\n}", "C09")
+m("C08-benign-full-end-inline", FMT, "        for &i in indices.iter().filter(|&&i| i < start || i >= end) {", "        for &i in indices.iter().filter(|&&i| i >= end || i < start) {", "C08")
+m("C14-benign-keygen-tuple", PROTO, "    let identity_secret_hash = Fr::rand(&mut rng);\n    let id_commitment = poseidon_hash(&[identity_secret_hash]);\n    (identity_secret_hash, id_commitment)\n}\n\n// Generates a tuple (identity_trapdoor", "    let s = Fr::rand(&mut rng);\n    (s, poseidon_hash(&[s]))\n}\n\n// Generates a tuple (identity_trapdoor", "C14")
+
 
 def main():
     os.makedirs(OUT, exist_ok=True)
